@@ -539,11 +539,54 @@ fn scale(w: &mut Worker) {
     }
 }
 
+/// The message is data: whatever its text looks like (placeholders of formatting libraries, percent
+/// signs, brackets, quotes, words that read as false) it is what get_last_error returns and what a
+/// fatal error carries, at top level, inside a function and behind an alias.
+fn message_texts(w: &mut Worker) {
+    const TEXTS: [&str; 36] = [
+        "{}", "a {} b", "{} {}", "{0}", "{name}", "{{}}", "{:?}", "%s", "%d%%", "100%", "%", "a=b", "x: y", "[1]", "<a>", "'q'", "it's", "say \"hi\"",
+        "back\\slash", "tab\there", "line\nbreak", " lead", "trail ", "é😀", "$", "$x", "#", "a # b", "false", "0", "no", "true", "Error", "-", "--flag", "a  b",
+    ];
+    for raw in TEXTS {
+        // the table is written with Rust escapes for tab / line break / backslash
+        let msg = raw.replace("\\t", "\t").replace("\\n", "\n").replace("\\\\", "\\");
+        for cmd in ["trigger_error", "assert_error"] {
+            for place in 0..3u8 {
+                let raise = crate::render::line(Some("o"), cmd, &[&msg]);
+                let (pre, call) = match place {
+                    0 => (String::new(), raise.clone()),
+                    1 => (format!("fn failing\n{}\nend\n", raise), "failing".to_string()),
+                    _ => (format!("alias raise {}\n", cmd), crate::render::line(Some("o"), "raise", &[&msg])),
+                };
+                let text = format!("{}{}\ne = get_last_error\ndone = set yes", pre, call);
+                scale_case(w, &format!("message-text {} place {} text {:?}", cmd, place, msg), &text, &[("e", Some(msg.clone())), ("o", Some("false".into())), ("done", Some("yes".into()))]);
+                // and fatal
+                if !w.take() {
+                    continue;
+                }
+                let text = format!("{}exit_on_error true\n{}\ndone = set yes", pre, call);
+                let cj = json!({"kind": "scale", "name": format!("message-text-fatal {} place {} text {:?}", cmd, place, msg), "script": text});
+                w.begin(|| cj.clone());
+                w.add_transitions(1);
+                let ctx = sdk_context();
+                let (env, _o, _e, _h) = quiet_env();
+                match guarded(|| runner::run_script(&text, ctx, Some(env))) {
+                    Err(p) => w.fail("message-text:panic", &p, cj),
+                    Ok(Ok(_)) => w.fail("message-text:exit_on_error-did-not-stop", &format!("{} {:?} under exit_on_error: the script ran on", cmd, msg), cj),
+                    Ok(Err(ScriptError::Runtime(m, _))) if m == msg => w.pass(true, hash64(&("message-text-fatal", place))),
+                    Ok(Err(e)) => w.fail("message-text:fatal-message", &format!("{} {:?} under exit_on_error failed with {:?}", cmd, msg, e.to_string()), cj),
+                }
+            }
+        }
+    }
+}
+
 pub fn worker(w: &mut Worker) {
     let tier = w.tier;
     w.risky = true;
     w.set_case_limit_ms(20_000);
     scale(w);
+    message_texts(w);
     w.set_case_limit_ms(1_000);
     let real_msg = {
         let mut s = Session::new();
@@ -651,7 +694,7 @@ pub fn crash_sig(_case: &Value, kind: &str) -> String {
     kind.to_string()
 }
 
-pub const RULE: &str = "programs: every sequence of 1..k error sites, each site = context {top level, function body, for body, while body, if branch, else branch, inside a script-implemented library command, included file, a function called from a loop, a loop inside a function, as the condition of if / elseif / while and as the operand of not} x error kind {trigger_error, assert_error with a message containing a space, a real failing command, a message containing the literal text ${x}, a failing script-implemented command} x lines in front of the site {none, a blank line, blank + comment, `set_error` + an `exit_on_error` query (statements that touch the error record and the mode without being errors)}; each site assigns an output variable and is followed by get_last_error / get_last_error_line / get_last_error_source probes; x exit_on_error schedule {never, on from the start, turned on after the first site, on then off before the first site} x run mode {text (included files named by absolute path), file, file that includes the file with the sites}. Oracle (error protocol): output variable 'false'; message, 1-based line and source file of the instruction the runner was executing (the caller's line for the script-implemented command, the included file's own path and line for included code); the latest error wins; the script reaches its last line and the enclosing blocks go on as written (a for body with two elements and a while body run twice, the else branch of an if whose then-branch failed does not run); under exit_on_error the run fails with Runtime(message, line, source) of the first error after it was turned on, and the text the failure is reported with contains that message and line. Scale cases: 300/3000 (thorough 30000) errors raised in a loop and on as many different lines (the latest wins, with its line), and a fatal error that far down after exit_on_error. evaluations = programs run";
+pub const RULE: &str = "programs: every sequence of 1..k error sites, each site = context {top level, function body, for body, while body, if branch, else branch, inside a script-implemented library command, included file, a function called from a loop, a loop inside a function, as the condition of if / elseif / while and as the operand of not} x error kind {trigger_error, assert_error with a message containing a space, a real failing command, a message containing the literal text ${x}, a failing script-implemented command} x lines in front of the site {none, a blank line, blank + comment, `set_error` + an `exit_on_error` query (statements that touch the error record and the mode without being errors)}; each site assigns an output variable and is followed by get_last_error / get_last_error_line / get_last_error_source probes; x exit_on_error schedule {never, on from the start, turned on after the first site, on then off before the first site} x run mode {text (included files named by absolute path), file, file that includes the file with the sites}. Oracle (error protocol): output variable 'false'; message, 1-based line and source file of the instruction the runner was executing (the caller's line for the script-implemented command, the included file's own path and line for included code); the latest error wins; the script reaches its last line and the enclosing blocks go on as written (a for body with two elements and a while body run twice, the else branch of an if whose then-branch failed does not run); under exit_on_error the run fails with Runtime(message, line, source) of the first error after it was turned on, and the text the failure is reported with contains that message and line. Scale cases: 300/3000 (thorough 30000) errors raised in a loop and on as many different lines (the latest wins, with its line), and a fatal error that far down after exit_on_error. Message texts: 36 awkward texts (format placeholders, percent signs, brackets, quotes, escapes, blanks at the ends, words that read as false, option look-alikes) x {trigger_error, assert_error} x {top level, inside a function, behind an alias} x {recorded, fatal}: the text comes back unchanged. evaluations = programs run";
 pub const ASSUMPTIONS: &[&str] = &["the message of the real failing command is taken from running that command alone (differential)", "a failing command in condition position makes the wrapping library command (if / elseif / while / not) report that error on its own line; the script then goes on with the next line, which is the first line of the body (what the body's own end / else lines do afterwards is not looked at: the generated blocks have no else and a while body leaves through goto)"];
 pub const EXHAUSTIVE: bool = true;
 pub const WALL_CAP_S: (u64, u64) = (55, 1500);
